@@ -34,6 +34,13 @@ func intersectWithChildren(x, y, width, height int, positions map[Box]rect) bool
 	return false
 }
 
+// copyNames returns a copy of the line names [track]: the tracks list is extended
+// during layout, whereas the style's value is shared.
+func copyNames(track pr.GridSpec) pr.GridNames {
+	names, _ := track.(pr.GridNames)
+	return append(pr.GridNames(nil), names...)
+}
+
 func getTemplateTracks(tracks pr.GridTemplate) []pr.GridSpec {
 	if tracks.Tag == pr.None {
 		tracks.Names = []pr.GridSpec{pr.GridNames{}}
@@ -64,7 +71,7 @@ func getTemplateTracks(tracks pr.GridTemplate) []pr.GridSpec {
 							if len(tracksList)%2 != 0 {
 								tracksList[len(tracksList)-1] = append(tracksList[len(tracksList)-1].(pr.GridNames), repeatTrack.(pr.GridNames)...)
 							} else {
-								tracksList = append(tracksList, repeatTrack)
+								tracksList = append(tracksList, copyNames(repeatTrack))
 							}
 						}
 					}
@@ -77,7 +84,7 @@ func getTemplateTracks(tracks pr.GridTemplate) []pr.GridSpec {
 			if len(tracksList)%2 != 0 {
 				tracksList[len(tracksList)-1] = append(tracksList[len(tracksList)-1].(pr.GridNames), track.(pr.GridNames)...)
 			} else {
-				tracksList = append(tracksList, track)
+				tracksList = append(tracksList, copyNames(track))
 			}
 		}
 	}
